@@ -322,6 +322,7 @@ func (c09Prop) Execute(p *Plan, run *Run) any {
 	vi := 0
 	for opi, op := range pl.Ops {
 		before := len(w.Buf)
+		tick()
 		pendBefore := len(allEnc) - inBlocks
 		var what string
 		if op.Flush {
